@@ -601,8 +601,12 @@ theorem lexDefault_numOrOp {c : Char} {rest : List Char} (hc : plainStart c = tr
     by_cases h : c = '/'
     · simp [h, (hsl h).2]
     · simp [h]
+  have hsl3 : (c = '/' && rest.head? = some '*') = false := by
+    by_cases h : c = '/'
+    · simp [h, (hsl h).2]
+    · simp [h]
   unfold lexDefault
-  simp only [h1, h2, h3, h4, h5, h6, h7, h8, h9, hsl', hsl2, decide_false, Bool.or_self, if_false, Bool.false_eq_true]
+  simp only [h1, h2, h3, h4, h5, h6, h7, h8, h9, hsl', hsl2, hsl3, decide_false, Bool.or_self, if_false, Bool.false_eq_true]
   rfl
 theorem decimalLit_nondigit {c : Char} (rest : List Char) (hc : isDec c = false) : decimalLit (c :: rest) = 0 := by
   have h0 : c ≠ '0' := by rintro rfl; exact absurd hc (by decide)
